@@ -83,6 +83,10 @@ type Rule struct {
 
 // Grammar is a whole grammar.
 type Grammar struct {
+	// Raw, when set, is the grammar text itself (with %PKG% for the package name): hand-written
+	// code blocks for the few shapes the monitor's uniform blocks cannot express. Rules is then only
+	// a stand-in (Print returns Raw).
+	Raw       string
 	Rules     []*Rule
 	UsesState bool // some block touches c.state (grammar has state blocks)
 	NExprs    int
